@@ -1707,4 +1707,20 @@ theorem charconst_two_items (t : Target) (p : Prefix) {a b : Item} (hwf : ItemsW
   cases p <;> simp [Prefix.spell, body]
 
 
+/-! ## names used by the property file and its examples -/
+
+/-- Name of the `struct type` object a model type stands for. -/
+def ctypeName : CType → String
+  | .char => "typechar" | .uchar => "typeuchar" | .ushort => "typeushort" | .int => "typeint" | .uint => "typeuint"
+
+def x86 : Target := ⟨"x86_64-sysv", true, .int⟩
+def a64 : Target := ⟨"aarch64", false, .uint⟩
+def rv64 : Target := ⟨"riscv64", false, .int⟩
+
+/-- `"a\x41€" u"\101😀\n"` (two tokens, second with prefix `u`): source characters of 1, 3 and 4
+UTF-8 bytes, a hexadecimal, an octal and a simple escape. -/
+def exParts : List Part :=
+  [(.none, [.chr 0x61, .hex [0x34, 0x31], .chr 0x20AC]), (.u, [.oct [0x31, 0x30, 0x31], .chr 0x1F600, .simple 0x6E])]
+
+
 end CprocVerif.CharLit
